@@ -354,6 +354,16 @@ impl<'a> Runner<'a> {
 
     fn after_mount(&mut self, f: &[&str], so: &StepOut, pre: &BTreeMap<u8, Live>) {
         self.paths.push(f[1].to_string());
+        // C12: a backend mounted on a Vfs whose INIT has been served is initialised with exactly
+        // the options that INIT negotiated
+        let pfx = format!("{}.init.", f[2]);
+        if let Some(c) = so.calls.iter().find(|c| c.starts_with(&pfx)) {
+            let got: u64 = c[pfx.len()..].parse().unwrap_or(u64::MAX);
+            let want = self.w.vfs.options().out_opts.bits();
+            if got != want {
+                self.hit("C12", "C12:vfs:backend-init-options".into(), format!("mount `{}`: the backend was initialised with options {:#x}, the negotiated options are {:#x}", f[1], got, want));
+            }
+        }
         if let Some(idx) = so.res.strip_prefix("ok").and_then(|s| s.parse::<u8>().ok()) {
             self.out.stat("mount:ok");
             let pino = self.w.live.get(&idx).map(|l| l.pino).unwrap_or(0);
